@@ -18,7 +18,7 @@ func conversionCollectionToList(ety cty.Type, conv conversion) conversion {
 			// for a set containing unknown values) then our result must be
 			// an unknown list, because we can't predict how many elements
 			// the resulting list should have.
-			return cty.UnknownVal(cty.List(val.Type().ElementType())), nil
+			return cty.UnknownVal(cty.List(emptyCollectionElementType(val.Type().ElementType(), ety))), nil
 		}
 
 		elems := make([]cty.Value, 0, val.LengthInt())
@@ -52,10 +52,7 @@ func conversionCollectionToList(ety cty.Type, conv conversion) conversion {
 		if len(elems) == 0 {
 			// Prefer a concrete type over a dynamic type when returning an
 			// empty list
-			if ety == cty.DynamicPseudoType {
-				return cty.ListValEmpty(val.Type().ElementType()), nil
-			}
-			return cty.ListValEmpty(ety.WithoutOptionalAttributesDeep()), nil
+			return cty.ListValEmpty(emptyCollectionElementType(val.Type().ElementType(), ety)), nil
 		}
 
 		if !cty.CanListVal(elems) {
@@ -64,6 +61,19 @@ func conversionCollectionToList(ety cty.Type, conv conversion) conversion {
 
 		return cty.ListVal(elems), nil
 	}
+}
+
+// emptyCollectionElementType decides the element type of a result that has no
+// elements to take a type from (an empty collection, or an unknown collection):
+// the wanted element type without optional attribute annotations, with any
+// dynamic placeholders in it replaced by the corresponding parts of the input
+// collection's element type.
+func emptyCollectionElementType(inEty, wantEty cty.Type) cty.Type {
+	wantEty = wantEty.WithoutOptionalAttributesDeep()
+	if wantEty.HasDynamicTypes() {
+		return dynamicReplace(inEty, wantEty)
+	}
+	return wantEty
 }
 
 // conversionCollectionToSet returns a conversion that will apply the given
@@ -106,10 +116,7 @@ func conversionCollectionToSet(ety cty.Type, conv conversion) conversion {
 		if len(elems) == 0 {
 			// Prefer a concrete type over a dynamic type when returning an
 			// empty set
-			if ety == cty.DynamicPseudoType {
-				return cty.SetValEmpty(val.Type().ElementType()), nil
-			}
-			return cty.SetValEmpty(ety.WithoutOptionalAttributesDeep()), nil
+			return cty.SetValEmpty(emptyCollectionElementType(val.Type().ElementType(), ety)), nil
 		}
 
 		if !cty.CanSetVal(elems) {
@@ -159,10 +166,7 @@ func conversionCollectionToMap(ety cty.Type, conv conversion) conversion {
 		if len(elems) == 0 {
 			// Prefer a concrete type over a dynamic type when returning an
 			// empty map
-			if ety == cty.DynamicPseudoType {
-				return cty.MapValEmpty(val.Type().ElementType()), nil
-			}
-			return cty.MapValEmpty(ety.WithoutOptionalAttributesDeep()), nil
+			return cty.MapValEmpty(emptyCollectionElementType(val.Type().ElementType(), ety)), nil
 		}
 
 		if ety.IsCollectionType() || ety.IsObjectType() {
